@@ -38,13 +38,12 @@ structure SocketAddr where
   port : Nat
   deriving DecidableEq, Repr
 
+def hexLowerDigit (d : Nat) : UInt8 := if d < 10 then UInt8.ofNat (48 + d) else UInt8.ofNat (87 + d)
+
 /-- `{:x}` of an unsigned number: lower-case hex digits, no leading zeros (fuel ≥ number of digits) -/
 def hexLowerAux : Nat → Nat → Bytes
   | 0, _ => []
-  | f + 1, n =>
-    let d := n % 16
-    let c : UInt8 := if d < 10 then UInt8.ofNat (48 + d) else UInt8.ofNat (87 + d)
-    if n < 16 then [c] else hexLowerAux f (n / 16) ++ [c]
+  | f + 1, n => if n < 16 then [hexLowerDigit (n % 16)] else hexLowerAux f (n / 16) ++ [hexLowerDigit (n % 16)]
 
 def hexLower (n : Nat) : Bytes := hexLowerAux (n + 1) n
 
@@ -72,16 +71,23 @@ def longestZeroRun (s : List UInt16) : Nat × Nat := zeroRunGo s 0 (0, 0) (0, 0)
 /-- `fmt_subslice`: the segments in hex, `:` between them -/
 def showSegs (s : List UInt16) : Bytes := joinWith [58] (s.map fun x => hexLower x.toNat)
 
-/-- `Display for Ipv6Addr`: an IPv4-mapped address as `::ffff:a.b.c.d`, otherwise the longest run of two or more
-zero segments (the first of equally long ones) as `::` -/
+/-- `Display for Ipv6Addr` without the IPv4-mapped case: the longest run of two or more zero segments (the first of equally
+long ones) as `::` -/
+def showIpv6Generic (s : List UInt16) : Bytes :=
+  let z := longestZeroRun s
+  if z.2 > 1 then showSegs (s.take z.1) ++ asciiBytes "::" ++ showSegs (s.drop (z.1 + z.2))
+  else showSegs s
+
+/-- `Display for Ipv6Addr`: an IPv4-mapped address (`to_ipv4_mapped`: five zero segments and `ffff`) as `::ffff:a.b.c.d`,
+anything else with its zero run compressed -/
 def showIpv6 (s : List UInt16) : Bytes :=
   match s with
-  | [0, 0, 0, 0, 0, 0xFFFF, g, h] =>
-    asciiBytes "::ffff:" ++ showIpv4 (g >>> 8).toUInt8 (g &&& 0xFF).toUInt8 (h >>> 8).toUInt8 (h &&& 0xFF).toUInt8
-  | _ =>
-    let z := longestZeroRun s
-    if z.2 > 1 then showSegs (s.take z.1) ++ asciiBytes "::" ++ showSegs (s.drop (z.1 + z.2))
-    else showSegs s
+  | [a, b, c, d, e, f, g, h] =>
+    if a == 0 && b == 0 && c == 0 && d == 0 && e == 0 && f == 0xFFFF then
+      asciiBytes "::ffff:" ++ showIpv4 (UInt8.ofNat (g.toNat / 256)) (UInt8.ofNat (g.toNat % 256))
+        (UInt8.ofNat (h.toNat / 256)) (UInt8.ofNat (h.toNat % 256))
+    else showIpv6Generic s
+  | _ => showIpv6Generic s
 
 def IpAddr.segs : IpAddr → List UInt16
   | .v6 s0 s1 s2 s3 s4 s5 s6 s7 => [s0, s1, s2, s3, s4, s5, s6, s7]
